@@ -37,10 +37,20 @@ package ip
 //@ nomod
 
 // ------------------------------------------------------------------ C15: parsing a configured network reads its argument only
+// and a bare address stands for exactly that host: the full-length mask of its family, nothing wider; a CIDR entry is taken as
+// the library parsed it, and only when it names the network address itself (no host bits)
 //@ func ParseIPNet
+//@ safety
 //@ nomod
-//@ prop C15
-//@ ensures[a-network-or-nil] true
+//@ prop C15 C01
+//@ ensures[bare-address-is-parsed-as-an-address] !strings.ContainsRune(s, '/') ==> !called(net.ParseCIDR)
+//@     && (result != nil ==> called(net.ParseIP) && arg(net.ParseIP, 0) == s && ret(net.ParseIP) != nil && result.IP == ret(net.ParseIP))
+//@ ensures[bare-address-gets-the-host-mask-of-its-family] !strings.ContainsRune(s, '/') && result != nil ==>
+//@     (ret(To4) != nil && called(CIDRMask#0) && result.Mask == ret(CIDRMask#0) && arg(CIDRMask#0, 0) == 32 && arg(CIDRMask#0, 1) == 32)
+//@     || (ret(To4) == nil && called(CIDRMask#1) && result.Mask == ret(CIDRMask#1) && arg(CIDRMask#1, 0) == 128 && arg(CIDRMask#1, 1) == 128)
+//@ ensures[cidr-entry-is-the-parsed-network-without-host-bits] strings.ContainsRune(s, '/') && result != nil ==> called(net.ParseCIDR)
+//@     && arg(net.ParseCIDR, 0) == s && ret2(net.ParseCIDR) == nil && result == ret1(net.ParseCIDR) && called(Equal) && ret(Equal)
+//@     && arg(Equal, 1) == ret0(net.ParseCIDR)
 
 // the set only ever changes its own tables (slices behind the two table pointers, their elements and hash sets)
 //@ func (*NetSet).AddIPNet
